@@ -270,12 +270,7 @@ DropTailEdge(s) ==
            Clip(r) == <<r[1], IF r[2] > m THEN m ELSE r[2], IF r[3] > m THEN m ELSE r[3], r[4]>> IN
        \* (every range that points at the dropped edge: the blocks after the one with the tail may have added no edge)
        [s EXCEPT !.edges = Front(@), !.tl = 0, !.ranges = [k \in 1..Len(@) |-> Clip(@[k])]]
-\* Named deviation: SkoolKit clips the range of the last data block only (SkClipLastOnly)
-SkDropTailEdge(s) ==
-  IF s.tl = 0 \/ s.tm > 0 THEN DropTailEdge(s)
-  ELSE LET m == Len(s.edges) - 2
-           Clip(r) == <<r[1], IF r[2] > m THEN m ELSE r[2], IF r[3] > m THEN m ELSE r[3], r[4]>> IN
-       [s EXCEPT !.edges = Front(@), !.tl = 0, !.ranges = IF Len(@) = 0 THEN @ ELSE [@ EXCEPT ![Len(@)] = Clip(@)]]
+\* (SkoolKit clips the range of the last data block only: an earlier range can be left pointing past the list)
 
 \* ---- folds of the actions (used to judge recorded edge lists)
 RECURSIVE TonesFrom(_, _, _)
@@ -351,11 +346,13 @@ RangeClause(blocks, fe, gpol, edges, ranges) ==
       FirstBad(k) == IF k > Len(rb) THEN "ok" ELSE LET v == Bad(k) IN IF v # "ok" THEN v ELSE FirstBad(k + 1)
   IN IF Len(ranges) # Len(rb) THEN "range-count" ELSE FirstBad(1)
 
-PropertyClause(blocks, fe, gpol, edges, ranges) ==
+\* decl: the tape as the format documents describe it; shaped: the same signal as the player's front end shapes
+\* it (which blocks without bytes get a range is the player's convention, so ranges are judged on that shape)
+PropertyClause(decl, shaped, fe, gpol, edges, ranges) ==
   IF Len(edges) = 0 THEN "no-edges"
   ELSE IF ~Monotone(edges) THEN "monotone"
-  ELSE IF ~SignalOK(edges, blocks, fe, gpol) THEN "pulses"
-  ELSE RangeClause(blocks, fe, gpol, edges, ranges)
+  ELSE IF ~SignalOK(edges, decl, fe, gpol) THEN "pulses"
+  ELSE RangeClause(shaped, fe, gpol, edges, ranges)
 
 \* the same ranges in the generator's format <<n, start, end, bytes?>> -> <<start, end, bytes?, len>>
 RangesOf(s, blocks) == [k \in 1..Len(s.ranges) |-> <<s.ranges[k][2], s.ranges[k][3], s.ranges[k][4], Len(blocks[s.ranges[k][1]].data)>>]
